@@ -44,13 +44,24 @@ def confirm(a):
     cmd = a.cmd or ('cargo test -p rs1090 --test %s --offline' % name)
     log = {}
 
+    appends = [x.split('::', 1) for x in (a.append or [])]
+
     def put():
         os.makedirs(os.path.dirname(dest), exist_ok=True)
         shutil.copy(demo, dest)
+        for f, line in appends:
+            with open(os.path.join(wt, f), 'a') as fh:
+                fh.write('\n' + line + '\n')
 
     def rm():
         if os.path.exists(dest):
             os.remove(dest)
+        for f, line in appends:
+            fp = os.path.join(wt, f)
+            t = open(fp).read()
+            suf = '\n' + line + '\n'
+            if t.endswith(suf):
+                open(fp, 'w').write(t[:-len(suf)])
         d = os.path.dirname(dest)
         if os.path.basename(d) == 'tests' and os.path.isdir(d) and not os.listdir(d):
             os.rmdir(d)
@@ -84,7 +95,7 @@ def confirm(a):
     shutil.copy(demo, os.path.join(d, os.path.basename(a.demo)))
     if os.path.exists(os.path.join(mdir, 'README.md')):
         shutil.copy(os.path.join(mdir, 'README.md'), os.path.join(d, 'README.md'))
-    meta = dict(id=a.seed_id, property=a.prop, needs_to_manifest=a.needs or '', demo=dict(file=os.path.basename(a.demo), place_at=a.dest, cmd=cmd),
+    meta = dict(id=a.seed_id, property=a.prop, needs_to_manifest=a.needs or '', demo=dict(file=os.path.basename(a.demo), place_at=a.dest, cmd=cmd, append=a.append or []),
                 confirmed=dict(demo_passes_on_clean_tree=True, demo_fails_with_patch=True, existing_suite_passes_with_patch=True,
                                suite_summary=log['suite_patched_summary'], how='tools/seed.py confirm in a scratch worktree of /repo HEAD'),
                 files=re.findall(r'^\+\+\+ b/(.*)$', open(os.path.join(mdir, 'patch.diff')).read(), flags=re.M),
@@ -142,7 +153,7 @@ if __name__ == '__main__':
     sub = ap.add_subparsers(dest='cmd_')
     c = sub.add_parser('confirm')
     c.add_argument('worktree'); c.add_argument('mdir'); c.add_argument('seed_id'); c.add_argument('prop')
-    c.add_argument('--demo', default='demo.rs'); c.add_argument('--dest', default=None); c.add_argument('--cmd', default=None); c.add_argument('--needs', default='')
+    c.add_argument('--demo', default='demo.rs'); c.add_argument('--dest', default=None); c.add_argument('--cmd', default=None); c.add_argument('--needs', default=''); c.add_argument('--append', action='append')
     r = sub.add_parser('run')
     r.add_argument('seed_id'); r.add_argument('--tier', default='quick'); r.add_argument('--props', default=None); r.add_argument('--unit', default=None)
     sub.add_parser('table')
